@@ -316,6 +316,15 @@ def unique_names(rep, fb, rule):
             if not inserts:
                 continue
             n_sites += 1
+            # the next candidate stays an identifier: it is not the bare counter (`name = suffix`, suffix = toStr(index))
+            for ba in body_assigns:
+                rhs_ = strip(ba['c'][-1])
+                while rhs_ is not None and rhs_['k'] in ('CXXConstructExpr', 'CXXBindTemporaryExpr', 'MaterializeTemporaryExpr') and rhs_.get('c') and len([c_ for c_ in rhs_['c'] if c_]) == 1:
+                    rhs_ = strip([c_ for c_ in rhs_['c'] if c_][0])
+                if rhs_ is not None and rhs_['k'] == 'DeclRefExpr' and 'lid' in rhs_.get('ref', {}):
+                    dcl_ = next((d_ for s_ in sub(lp) if s_['k'] == 'DeclStmt' for d_ in s_.get('decls', []) if d_.get('lid') == rhs_['ref']['lid'] and isinstance(d_.get('init'), dict)), None)
+                    if dcl_ is not None and any(y.get('callee', {}).get('q', '') == 'uscxml::toStr' for y in sub(dcl_['init'])):
+                        rep.fail(rule, '%s|candidate is a number' % f.q.split('::')[-1], locstr(ba), 'when the counter does not fit into the name the next candidate is the bare counter (`%s`): event `a` next to event `A` gets the macro name 2 - `#define 2 3` does not compile, and event="A" resolves to the code of event a' % ' '.join(fb.text(ba).split())[:50])
             g = cfgm.CFG(f)
             in_loop = {x['id'] for x in sub(lp)}
             muts = []
